@@ -4,6 +4,8 @@
 // (drvrfile.o of the static libcfitsio.a) really references:
 //
 //     fopen64  remove  fileno  ftruncate64      (+ fopen, ftruncate as guards)
+//     rename  unlink  access                    (not used by the pinned code: present so that a
+//                                                 writer which starts to use them stays inside the simulation)
 //     realloc                                   (growth of cfitsio memory files)
 //
 // A path below "/sim/" names an in-memory file. fopen64() of such a path
@@ -51,7 +53,7 @@ namespace disk {
 
 typedef std::vector<uint8_t> Bytes;
 
-enum OpKind { OP_OPEN = 0, OP_WRITE, OP_READ, OP_SEEK, OP_TRUNCATE, OP_REMOVE, OP_CLOSE, OP_NKINDS };
+enum OpKind { OP_OPEN = 0, OP_WRITE, OP_READ, OP_SEEK, OP_TRUNCATE, OP_REMOVE, OP_CLOSE, OP_RENAME, OP_NKINDS };
 const char *kind_name(OpKind k);              // "open","write","read","seek","truncate","remove","close"
 bool kind_from_name(const std::string &s, OpKind &k);
 
@@ -60,6 +62,7 @@ struct Op {
 	std::string path;      // path the handle was opened on (or the path removed)
 	int handle = -1;       // open ordinal within the run, -1 for remove
 	std::string mode;      // open only
+	std::string path2;     // rename only: the new name
 	uint64_t off = 0;      // write/read: file offset; seek: resulting offset; truncate: new length
 	uint64_t len = 0;      // write/read: bytes requested
 	uint64_t done = 0;     // write/read: bytes transferred
@@ -79,6 +82,7 @@ struct Op {
 //                 | eof (premature end of file: 0 bytes)
 //   on = "seek":  EIO          on = "close": EIO ENOSPC
 //   on = "remove": EACCES      on = "open":  ENOENT EACCES EMFILE
+//   on = "rename": ENOSPC EACCES EXDEV (the file keeps its old name)
 //   on = "truncate": EIO ENOSPC
 // persistent: the fault hits the at-th and every later operation of the kind.
 struct Fault {
